@@ -1,0 +1,21 @@
+//go:build verif
+
+package document
+
+// Verification hooks (build tag "verif"). Nothing here is compiled into normal builds.
+
+// VerifHook, when non-nil, is called at the named linearisation points.
+var VerifHook func(point string)
+
+func verifPoint(point string) {
+	if h := VerifHook; h != nil {
+		h(point)
+	}
+}
+
+// VerifResetGlobals clears the process-wide note and numbering registries so that a
+// single-document baseline can be reproduced inside one process.
+func VerifResetGlobals() {
+	globalFootnoteManager = nil
+	globalNumberingManager = nil
+}
